@@ -84,6 +84,10 @@ func NewNegotiator(cfg func(*Session, *StreamConfig) StreamConfig) Negotiator {
 type negotiatorState struct {
 	doRestart bool
 	cancelTee context.CancelFunc
+
+	// first is true until the first features list of the session has been
+	// handled.
+	first bool
 }
 
 func negotiator(f func(*Session, *StreamConfig) StreamConfig) Negotiator {
@@ -96,6 +100,7 @@ func negotiator(f func(*Session, *StreamConfig) StreamConfig) Negotiator {
 			nState = negotiatorState{
 				doRestart: true,
 				cancelTee: nil,
+				first:     true,
 			}
 		}
 
@@ -204,7 +209,8 @@ func negotiator(f func(*Session, *StreamConfig) StreamConfig) Negotiator {
 		}
 
 		cfg = f(s, &cfg)
-		mask, rw, err = negotiateFeatures(ctx, s, data == nil, websocket, cfg.Features)
+		mask, rw, err = negotiateFeatures(ctx, s, nState.first, websocket, cfg.Features)
+		nState.first = false
 		nState.doRestart = rw != nil
 		return mask, rw, nState, err
 	}
